@@ -142,6 +142,44 @@ func Step(sh *Shared, local []tensor.Tensor, in Instr) (tensor.Tensor, error) {
 			return sh.Soft.Forward(a)
 		case "fc":
 			return sh.Layer.Forward(a)
+		case "dot":
+			return a.Dot(b)
+		case "sub":
+			return a.Sub(b)
+		case "div":
+			return a.Div(b)
+		case "pow":
+			return a.Pow(2), nil
+		case "exp":
+			return a.Exp(), nil
+		case "tanh":
+			return activations.NewTanh().Forward(a)
+		case "leakyrelu":
+			return activations.NewLeakyRelu(&activations.LeakyReluConfig{M: 0.125}).Forward(a)
+		case "reshape":
+			return a.Reshape([]int{4})
+		case "flatten":
+			return a.Flatten(0)
+		case "unsqueeze":
+			return a.UnSqueeze(1)
+		case "broadcast":
+			return a.Broadcast([]int{3, 2, 2})
+		case "patch":
+			return a.Patch([]tensor.Range{{From: 0, To: 2}, {From: 0, To: 2}}, b)
+		case "varalong":
+			return a.VarAlong(1)
+		case "maxalong":
+			return a.MaxAlong(0)
+		case "ce":
+			pa, err := sh.Soft.Forward(a)
+			if err != nil {
+				return nil, err
+			}
+			pb, err := sh.Soft.Forward(b)
+			if err != nil {
+				return nil, err
+			}
+			return losses.NewCE().Compute(pa, pb)
 		case "bce":
 			fa, err := a.Flatten(0)
 			if err != nil {
